@@ -327,15 +327,16 @@ def r18_6(ctx):
                       "batch sizes 1 and 2; state block unchanged")
     pr = model.func(SDEINT, "parse_return")
     rep.analysed(pr)
-    T, d = (4, 3) if ctx.tier == "thorough" else (3, 2)
-    for B in ((1, 2, 3) if ctx.tier == "thorough" else (1, 2)):
+    T0, d = (4, 3) if ctx.tier == "thorough" else (3, 2)
+    for B, T in [(B, T0) for B in ((1, 2, 3) if ctx.tier == "thorough" else (1, 2))] + [(2, 1), (2, 2)]:
         it = c17._index_interp(model)
         ys = c17.ST.symbolic("ys", (T, B, d + 1))
         y0 = c17.ST.symbolic("y0", (B, d + 1))
         try:
             out = it.call_function(pr, [y0, ys, (), False, True], {})
         except SimRaise as e:
-            rep.fail("R18.6", astq.loc(pr), f"{pr.key}::R18.6::batch={B}", f"parse_return raises {e.exc_name} for batch size {B}")
+            rep.fail("R18.6", astq.loc(pr), f"{pr.key}::R18.6::batch={B}" + ("" if T == T0 else f"::len(ts)={T}"),
+                     f"parse_return raises {e.exc_name} ({e.message}) for batch size {B} and {T} output time(s)")
             continue
         ok = isinstance(out, tuple) and len(out) == 2 and all(isinstance(o, c17.ST) for o in out)
         why = f"returns `{out!r}`"
@@ -350,7 +351,7 @@ def r18_6(ctx):
                     ok = all(nf.equal(lr.data[(i, b)], ys.data[(i + 1, b, d)] - ys.data[(i, b, d)])
                              for i in range(T - 1) for b in range(B))
                     why = "its entries are not L[i+1, b] - L[i, b]"
-        rep.check(ok, "R18.6", astq.loc(pr), f"{pr.key}::R18.6::batch={B}",
+        rep.check(ok, "R18.6", astq.loc(pr), f"{pr.key}::R18.6::batch={B}" + ("" if T == T0 else f"::len(ts)={T}"),
                   f"parse_return(logqp=True) on ys of shape {(T, B, d + 1)}: {why}",
                   f"log-ratio (len(ts) - 1, {B}), increments of the last channel")
         # with extra=True the solver state comes back as it is (it is the state of the augmented system: a continued solve
@@ -364,11 +365,11 @@ def r18_6(ctx):
             got = [getattr(a, "shape", a) for a in out2[2]] if isinstance(out2, tuple) and len(out2) == 3 and isinstance(out2[2], tuple) else out2
         except SimRaise as e:
             ok2, got = False, f"raises {e.exc_name}"
-        rep.check(ok2, "R18.6", astq.loc(pr), f"{pr.key}::R18.6::extra-unchanged::batch={B}",
+        rep.check(ok2, "R18.6", astq.loc(pr), f"{pr.key}::R18.6::extra-unchanged::batch={B}" + ("" if T == T0 else f"::len(ts)={T}"),
                   f"parse_return(logqp=True, extra=True) hands back a solver state of shapes `{got}`, not the state of shapes "
                   f"{[(B, d + 1)] * 2} it was given: a solve continued from it loses the integrand at the hand-over time",
                   "extra solver state returned unchanged")
-    ctx.floor("R18.6", 4)
+    ctx.floor("R18.6", 8)
 
 
 def run(ctx):
